@@ -501,6 +501,7 @@ def check_required(S, r, depth, n_perturb):
             if e.key is not ... and r.random() < 0.5:
                 e.opt = True
     d = ds.declare()
+    d0 = ds.declare()          # an independent twin, never handed to make_required: the oracle's "d"
     real = [e.key for e in ds.ents() if e.key is not ...]
     c = r.random()
     if c < 0.25:
@@ -550,7 +551,11 @@ def check_required(S, r, depth, n_perturb):
     for v in values_for(r, [d, d2], n_perturb):
         S.oracle_cases += 1
         got = verdict(d2, v)
-        base = verdict(d, v)
+        base = verdict(d0, v)
+        if verdict(d, v) != base:
+            S.viol("make_required changed its operand: the operand's verdict differs from an identically declared twin's",
+                   dict(rp, value=gen.vsrc(v), observed=verdict(d, v), expected=base))
+            break
         if isinstance(got, str) or isinstance(base, str):
             S.dist["make_required:validator_raised"] += 1
             continue
